@@ -176,6 +176,7 @@ func (mdb *MassDBV1) prePlotWork(cache *MemCache) error {
 				logging.CPrint(logging.DEBUG, fmt.Sprintf("current round %d/%d (%d), total progress %f", x/logCheckpointInterval, 50, x, totalProgress))
 			}
 		}
+		verifPoint(mdb, "A.scanned", startPoint, endPoint)
 		if n, err := cache.WriteToWriter(mdb.stopPlotCh, hmA.data, 0, int64(hmA.offset)+int64(startPoint)*int64(recordSize), int64(cache.Len())); err != nil {
 			logging.CPrint(logging.ERROR, "fail on writing cache to file", logging.LogFormat{"err": err, "n": n})
 			return err
@@ -271,6 +272,7 @@ func (mdb *MassDBV1) plotWork(cache *MemCache) error {
 				logging.CPrint(logging.DEBUG, fmt.Sprintf("current round %d/%d (%d), total progress %f", y/logCheckpointInterval, 50, y, totalProgress))
 			}
 		}
+		verifPoint(mdb, "B.scanned", startPoint, endPoint)
 		if n, err := cache.WriteToWriter(mdb.stopPlotCh, hmB.data, 0, int64(hmB.offset)+int64(startPoint)*int64(recordSize)*4, int64(cache.Len())); err != nil {
 			logging.CPrint(logging.ERROR, "fail on writing cache to file", logging.LogFormat{"err": err, "n": n})
 			return err
